@@ -219,6 +219,15 @@ impl AsyncSmtpConnection {
     ) -> Result<(), Error> {
         if self.server_info.supports_feature(Extension::StartTls) {
             try_smtp!(self.command(Starttls).await, self);
+            // Whatever arrived together with the reply was sent in clear: taking
+            // it for the first replies of the encrypted session would let an
+            // attacker in the middle answer for the server (STARTTLS injection)
+            if !self.stream.buffer().is_empty() {
+                self.abort().await;
+                return Err(error::response(
+                    "unexpected data after the reply to STARTTLS",
+                ));
+            }
             self.stream.get_mut().upgrade_tls(tls_parameters).await?;
             #[cfg(feature = "tracing")]
             tracing::debug!("connection encrypted");
